@@ -128,7 +128,7 @@ def check_infer(case, ctx: Ctx):
     want = [e[-1] for e in bt["edges"]]
     check([str(x) for x in sizes.index] == list(bt["names"]) and [int(v) for v in sizes.values] == want,
           lambda: f"get_chromsizes = {dict(sizes)} want {dict(zip(bt['names'], want))}")
-    if tb is not None and tb >= 2 and any(len(e) >= 3 for e in bt["edges"]):
+    if "subset_seed" in case and tb is not None and tb >= 2 and any(len(e) >= 3 for e in bt["edges"]):
         # a table DERIVED from a binnify() frame by ordinary pandas operations (slices of the frame, concatenated, one inner
         # bin cut in two): it is no longer a tiling of width tb and must not be reported as one
         import pandas as pd
@@ -409,6 +409,6 @@ def run(ctx: Ctx):
     parts.append(enumerated_part(ctx, "infer-enum", enum_infer(ctx), check_infer, every=100))
     parts.append(given_part(ctx, "binnify", binnify_cases(), check_binnify, per_shard(ctx, 4000 if q else 80000)))
     parts.append(given_part(ctx, "infer", infer_cases(), check_infer, per_shard(ctx, 6000 if q else 150000)))
-    parts.append(given_part(ctx, "cli", cli_cases(), check_cli, per_shard(ctx, 600 if q else 12000)))
-    parts.append(given_part(ctx, "cooler", cooler_cases(), check_cooler, per_shard(ctx, 800 if q else 20000)))
+    parts.append(given_part(ctx, "cli", cli_cases(), check_cli, per_shard(ctx, 480 if q else 12000)))
+    parts.append(given_part(ctx, "cooler", cooler_cases(), check_cooler, per_shard(ctx, 480 if q else 20000)))
     run_parts(ctx, parts)
